@@ -7,7 +7,7 @@ import itertools
 from ..core import Run, AnalysisError, dotted, norm
 from ..alg import T, num, var, op, normalize, substitute, same, same_terms, C, Rat
 from ..reader import ExprReader, SYSTEMS
-from ..pyreader import PyReader, VVal, Sys, Raised
+from ..pyreader import static_methods, PyReader, VVal, Sys, Raised
 from ..dim import World
 from ..flow import Fn, node_calls, conditions_for, stmt_of, has_subscript
 from .c12 import H
@@ -176,12 +176,25 @@ def check(run: Run) -> None:
     # ---- T2
     amod = run.src.need(AR)
     R = PyReader(amod.tree, where="arithmetics.py")
+    csm = run.src.need("symplyphysics.core.coordinate_systems.coordinate_systems")
+    R.extern_static = static_methods(next(c_ for c_ in csm.tree.body if isinstance(c_, ast.ClassDef) and c_.name == "CoordinateSystem"))
+
+    mutated = set()
 
     def call(fname, *args):
+        before = [list(a.components) if isinstance(a, VVal) else None for a in args]
         try:
             return R.call(fname, list(args))
         except Raised as r:
             return r
+        finally:
+            # an operand is a value: whatever the function returns, the caller's vector must be what it was (Vector.components hands out the vector's own list)
+            for a, b in zip(args, before):
+                if b is not None and (len(a.components) != len(b) or any(x is not y and repr(x) != repr(y) for x, y in zip(a.components, b))) and fname not in mutated:
+                    mutated.add(fname)
+                    run.violate("T2", f"{AR}:{fname}:mutates-operand", amod, amod.tree,
+                                f"{fname} changes the components of its {a.system.kind.lower()} operand in place ({b!r} -> {a.components!r}): every later use of that vector "
+                                f"(a second scaling, its re-expression in Cartesian coordinates, its magnitude) sees the changed vector")
 
     def to_cart(kind: str, comps: list) -> list:
         full = list(comps) + [num(0)] * (3 - len(comps))
@@ -327,9 +340,10 @@ class _KPoint:
 
 
 class _CallableField:
+    """a field; `stored`: its point function is a stored value (an expression in the base scalars) instead of a callable"""
 
-    def __init__(self, system: Sys):
-        self.system = system
+    def __init__(self, system: Sys, stored: bool = False):
+        self.system, self.stored = system, stored
 
 
 class T4Reader(PyReader):
@@ -341,7 +355,7 @@ class T4Reader(PyReader):
     def hook_attr(self, base, attr, n):
         if isinstance(base, _CallableField):
             if attr in ("_point_function", "field_function"):
-                return ("point-function", )
+                return ("stored-value", ) if base.stored else ("point-function", )
             if attr in ("_coordinate_system", "coordinate_system"):
                 return base.system
         return NotImplemented
@@ -372,6 +386,13 @@ class T4Reader(PyReader):
                 return ("class", v.cls)
         if name == "Vector" and n.args:
             return ("vector", self.ev(n.args[0], env, fns))
+        if name == "_subs_with_point" and len(n.args) == 3:
+            # the stored value with the point's coordinates inserted (decided by T5/T8): the evaluation of a field that stores a value
+            vals = [self.ev(a, env, fns) for a in n.args]
+            if vals[0] == ("stored-value", ) and isinstance(vals[2], _KPoint):
+                self.applied.append([vals[2]])
+                return ("field-value", )
+            self.fail(n, "_subs_with_point arguments")
         if isinstance(n.func, ast.Attribute) and n.func.attr in ("_point_function", "field_function"):
             base = self.ev(n.func.value, env, fns)
             if isinstance(base, _CallableField):
@@ -396,25 +417,28 @@ def _t4(run: Run) -> None:
     for modname, cls in (("symplyphysics.core.fields.scalar_field", "ScalarField"), ("symplyphysics.core.fields.vector_field", "VectorField")):
         m = run.src.need(modname)
         mm = _methods_module(m, cls)
-        for pc in ("CartesianPoint", "SpherePoint", "CylinderPoint", "Point"):
-            for kind in SYSTEMS:
-                run.ob("T4", f"{cls}.__call__:{pc}:{kind}")
-                R = T4Reader(mm, f"{cls}.__call__[{pc} in {kind}]")
-                pt = _KPoint(pc)
-                try:
-                    R.call("__call__", [_CallableField(Sys("F", kind)), pt])
-                    raised = None
-                except Raised as r:
-                    raised = r
-                must_refuse = pc in expected and expected[pc] != kind
-                if must_refuse and (raised is None or R.applied):
-                    run.violate("T4", f"{modname}:{cls}.__call__:{pc}", m, m.tree,
-                                f"{cls}.__call__ does not refuse a {pc} when the field's system is {kind.lower()}"
-                                + (" before evaluating the field function" if R.applied else "") + f" (the point class belongs to {expected[pc].lower()} systems)")
-                elif not must_refuse and (raised is not None or len(R.applied) != 1 or R.applied[0] != [pt]):
-                    run.violate("T4", f"{modname}:{cls}.__call__:{pc}:{kind}:applies", m, m.tree,
-                                f"{cls}.__call__ does not evaluate the field function at a {pc} in a {kind.lower()} system "
-                                f"({'raises ' + raised.exc if raised is not None else 'applications: ' + str(len(R.applied))})")
+        for stored in (False, True):
+            what = "that stores a value" if stored else "with a callable point function"
+            for pc in ("CartesianPoint", "SpherePoint", "CylinderPoint", "Point"):
+                for kind in SYSTEMS:
+                    run.ob("T4", f"{cls}.__call__:{pc}:{kind}:{'stored' if stored else 'callable'}")
+                    R = T4Reader(mm, f"{cls}.__call__[{pc} in {kind}, {'stored value' if stored else 'callable'}]")
+                    pt = _KPoint(pc)
+                    try:
+                        R.call("__call__", [_CallableField(Sys("F", kind), stored), pt])
+                        raised = None
+                    except Raised as r:
+                        raised = r
+                    must_refuse = pc in expected and expected[pc] != kind
+                    if must_refuse and (raised is None or R.applied):
+                        run.violate("T4", f"{modname}:{cls}.__call__:{pc}" + (":stored-value" if stored else ""), m, m.tree,
+                                    f"{cls}.__call__ of a field {what} does not refuse a {pc} when the field's system is {kind.lower()}"
+                                    + (" before evaluating the field" if R.applied else "") + f" (the point class belongs to {expected[pc].lower()} systems): "
+                                    f"the point's coordinates are read as {kind.lower()} coordinates and a wrong value is answered")
+                    elif not must_refuse and (raised is not None or len(R.applied) != 1 or R.applied[0] != [pt]):
+                        run.violate("T4", f"{modname}:{cls}.__call__:{pc}:{kind}:applies" + (":stored-value" if stored else ""), m, m.tree,
+                                    f"{cls}.__call__ of a field {what} does not evaluate the field at a {pc} in a {kind.lower()} system "
+                                    f"({'raises ' + raised.exc if raised is not None else 'applications: ' + str(len(R.applied))})")
 
 
 def _methods_module(mod, cls_name: str) -> ast.Module:
